@@ -868,7 +868,7 @@ def del_cases():
     return out
 
 
-FLAT_KINDS = ('assign', 'expr', 'if', 'if-distinct', 'for-distinct', 'try-distinct', 'if-else', 'elif-chain', 'for', 'while', 'try', 'try-finally', 'with', 'def', 'class',
+FLAT_KINDS = ('assign', 'expr', 'if', 'if-distinct', 'for-distinct', 'try-distinct', 'if-else', 'elif-chain', 'for', 'try', 'try-finally', 'with', 'def', 'class',
               'import', 'augassign', 'lambda', 'comprehension', 'mixed')
 
 
@@ -956,6 +956,8 @@ def flat_cases(sizes, kinds=FLAT_KINDS, placements=('module', 'function', 'loop'
                                           ('class', 'class K:\n', 'K.v.zz\nK().w\n')):
                     if where not in placements:
                         continue
+                    if where == 'loop' and kind in ('for', 'for-distinct', 'while', 'mixed', 'comprehension'):
+                        continue        # loops in a loop body double the analysis time per statement: see growth_cases
                     t2 = head + flat_text(kind, n, '    ') + tail
                     L2 = Lines(t2)
                     rows = len(L2) - 1
@@ -1084,21 +1086,21 @@ def _family(name, tier='quick'):
         if tier == 'quick':
             # the probes that need the whole 9*B line events (minutes of CPU each) run in the thorough tier only
             return growth_cases((4, 8), [])
-        return growth_cases((4, 8, 12), [(w, k, n) for w in ('module', 'function', 'loop', 'class') for k, n in
+        return growth_cases((4, 8, 10), [(w, k, n) for w in ('module', 'function', 'loop', 'class') for k, n in
                                          (('for', 19), ('while', 26), ('if', 26), ('try', 26), ('mixed', 26), ('comprehension', 26))])
     if name == 'flat':
         # lint is super-linear in the number of sequential regions that rebind one name (1000 if-blocks: ~10 s,
         # 3000: minutes), so the big sizes are run for the kinds that stay cheap
         linear = ('assign', 'expr', 'def', 'class', 'import', 'augassign', 'lambda', 'with', 'try-finally', 'mixed', 'elif-chain')
-        mid = ('if', 'if-distinct', 'for-distinct', 'try-distinct', 'while', 'if-else', 'for', 'try', 'comprehension')
+        mid = ('if', 'if-distinct', 'for-distinct', 'try-distinct', 'if-else', 'for', 'try', 'comprehension')
         out = flat_cases((200,), elif_n=60 if tier == 'quick' else 150)
         if tier == 'quick':
             out += flat_cases((500,), linear + ('if-distinct',), placements=('module', 'imported'))
             out += flat_cases((1000, 3000), linear, placements=('module',))
         else:
             out += flat_cases((500,))
-            out += flat_cases((1000,), linear + mid[:5], placements=('module', 'function', 'imported'))
-            out += flat_cases((3000,), linear + ('if-distinct',), placements=('module', 'imported'))
+            out += flat_cases((1000,), linear + mid[:4], placements=('module', 'function', 'imported'))
+            out += flat_cases((3000,), linear, placements=('module', 'imported'))
         return out
     raise KeyError(name)
 
